@@ -102,4 +102,368 @@ theorem step_hd {c tag rest1 value rest2 : Bytes} (h1 : ¬ ch = nl) (h2 : ¬ (ch
 
 end steps
 
+
+/-! ### No panic -/
+
+/-- the invariant that keeps `args[len(args)-1]` in range -/
+def Good (s : St) : Prop := s.sep = false → s.cur ≠ none
+
+theorem good_open_cur {s : St} (h : Good s) : s.open.cur ≠ none := by
+  unfold St.open
+  split
+  · simp
+  · next hs => exact h (by simpa using hs)
+
+theorem open_sep (s : St) : s.open.sep = s.sep := by
+  unfold St.open; split <;> rfl
+
+theorem open_esc (s : St) : s.open.esc = s.esc := by
+  unfold St.open; split <;> rfl
+
+theorem no_panic_aux :
+    (∀ (s : St) (inp : Bytes), Good s → mainLoop s inp ≠ .panic) := by
+  intro s inp
+  apply mainLoop.induct (motive1 := fun s inp => Good s → mainLoop s inp ≠ .panic)
+    (motive2 := fun done c esc inp => quoteLoop done c esc inp ≠ .panic)
+  case case1 => intro s _; rw [mainLoop.eq_1]; exact Outcome.noConfusion
+  case case2 => intro s rest h ih g; rw [step_nl_esc h]; exact ih g
+  case case3 => intro s rest h g; rw [step_nl h]; exact Outcome.noConfusion
+  case case4 => intro s ch rest h1 h2 ih g; rw [step_blank h1 h2]; exact ih (fun h => by cases h)
+  case case5 => intro s ch rest h1 h2 h3 ih g; rw [step_bs h1 h2 h3]; exact ih g
+  case case6 => intro s ch rest h1 h2 h3 s' hc g; exact absurd hc (good_open_cur g)
+  case case7 => intro s ch rest h1 h2 h3 s' c hc h4 ih g; rw [step_dq h1 h2 h3 hc h4]; exact ih
+  case case8 =>
+    intro s ch rest h1 h2 h3 s' c hc h4 h5 e ht g
+    rw [step_hd_tagerr h1 h2 h3 hc h4 h5 ht]; exact Outcome.noConfusion
+  case case9 =>
+    intro s ch rest h1 h2 h3 s' c hc h4 h5 r1 ht g
+    rw [step_hd_notag h1 h2 h3 hc h4 h5 ht]; exact Outcome.noConfusion
+  case case10 =>
+    intro s ch rest h1 h2 h3 s' c hc h4 h5 tag r1 ht hne hb g
+    rw [step_hd_nobody h1 h2 h3 hc h4 h5 ht hne hb]; exact Outcome.noConfusion
+  case case11 =>
+    intro s ch rest h1 h2 h3 s' c hc h4 h5 tag r1 ht hne v r2 hb ih g
+    rw [step_hd h1 h2 h3 hc h4 h5 ht hne hb]; exact ih (fun _ => by simp)
+  case case12 =>
+    intro s ch rest h1 h2 h3 s' c hc h4 h5 ih g
+    rw [step_push h1 h2 h3 hc h4 h5]; exact ih (fun _ => by simp)
+  case case13 => intro d c e; rw [quoteLoop.eq_1]; exact Outcome.noConfusion
+  case case14 =>
+    intro d c e ch rest h ih; rw [quoteLoop.eq_2, if_pos h]; exact ih (fun _ => by simp)
+  case case15 =>
+    intro d c e rest h ih; rw [quoteLoop.eq_2, if_neg h, if_pos rfl]; exact ih
+  case case16 =>
+    intro d c e ch rest h hb ih; rw [quoteLoop.eq_2, if_neg h, if_neg hb]; exact ih
+
+
+/-! ### Reading stops at the newline -/
+
+/-- what a result says about the unread remainder, relative to the input `inp` -/
+def Stops (inp : Bytes) : Outcome → Prop
+  | .ok _ false r => nl :: r <:+ inp
+  | .ok _ true r => r = []
+  | _ => True
+
+theorem Stops.mono {a b : Bytes} {o : Outcome} (h : Stops a o) (hab : a <:+ b) : Stops b o := by
+  cases o with
+  | ok args eof r =>
+    cases eof with
+    | false => exact List.IsSuffix.trans h hab
+    | true => exact h
+  | err _ _ => trivial
+  | panic => trivial
+
+theorem tagLine_suffix : ∀ (tag inp : Bytes) {t r}, tagLine tag inp = .ok (t, r) → r <:+ inp := by
+  intro tag inp
+  induction inp generalizing tag with
+  | nil => intro t r h; simp [tagLine] at h
+  | cons ch rest ih =>
+    intro t r h
+    unfold tagLine at h
+    split at h
+    · cases h; exact List.suffix_cons _ _
+    · split at h
+      · exact (ih _ h).trans (List.suffix_cons _ _)
+      · split at h
+        · cases h
+        · exact (ih _ h).trans (List.suffix_cons _ _)
+
+theorem bodyLoop_suffix (marker : Bytes) :
+    ∀ (v inp : Bytes) {x r}, bodyLoop marker v inp = some (x, r) → r <:+ inp := by
+  intro v inp
+  induction inp generalizing v with
+  | nil => intro x r h; simp [bodyLoop] at h
+  | cons ch rest ih =>
+    intro x r h
+    unfold bodyLoop at h
+    simp only at h
+    split at h
+    · cases h; exact List.suffix_cons _ _
+    · exact (ih _ h).trans (List.suffix_cons _ _)
+
+theorem stops_aux (s : St) (inp : Bytes) : Stops inp (mainLoop s inp) := by
+  apply mainLoop.induct (motive1 := fun s inp => Stops inp (mainLoop s inp))
+    (motive2 := fun done c esc inp => Stops inp (quoteLoop done c esc inp))
+  case case1 => intro s; rw [mainLoop.eq_1]; rfl
+  case case2 => intro s rest h ih; rw [step_nl_esc h]; exact ih.mono (List.suffix_cons _ _)
+  case case3 => intro s rest h; rw [step_nl h]; exact List.suffix_refl _
+  case case4 => intro s ch rest h1 h2 ih; rw [step_blank h1 h2]; exact ih.mono (List.suffix_cons _ _)
+  case case5 => intro s ch rest h1 h2 h3 ih; rw [step_bs h1 h2 h3]; exact ih.mono (List.suffix_cons _ _)
+  case case6 => intro s ch rest h1 h2 h3 s' hc; rw [step_panic h1 h2 h3 hc]; trivial
+  case case7 =>
+    intro s ch rest h1 h2 h3 s' c hc h4 ih; rw [step_dq h1 h2 h3 hc h4]
+    exact ih.mono (List.suffix_cons _ _)
+  case case8 =>
+    intro s ch rest h1 h2 h3 s' c hc h4 h5 e ht
+    rw [step_hd_tagerr h1 h2 h3 hc h4 h5 ht]; trivial
+  case case9 =>
+    intro s ch rest h1 h2 h3 s' c hc h4 h5 r1 ht
+    rw [step_hd_notag h1 h2 h3 hc h4 h5 ht]; trivial
+  case case10 =>
+    intro s ch rest h1 h2 h3 s' c hc h4 h5 tag r1 ht hne hb
+    rw [step_hd_nobody h1 h2 h3 hc h4 h5 ht hne hb]; trivial
+  case case11 =>
+    intro s ch rest h1 h2 h3 s' c hc h4 h5 tag r1 ht hne v r2 hb ih
+    rw [step_hd h1 h2 h3 hc h4 h5 ht hne hb]
+    exact ih.mono (((bodyLoop_suffix _ _ _ hb).trans (tagLine_suffix _ _ ht)).trans
+      (List.suffix_cons _ _))
+  case case12 =>
+    intro s ch rest h1 h2 h3 s' c hc h4 h5 ih
+    rw [step_push h1 h2 h3 hc h4 h5]; exact ih.mono (List.suffix_cons _ _)
+  case case13 => intro d c e; rw [quoteLoop.eq_1]; trivial
+  case case14 =>
+    intro d c e ch rest h ih; rw [quoteLoop.eq_2, if_pos h]; exact ih.mono (List.suffix_cons _ _)
+  case case15 =>
+    intro d c e rest h ih; rw [quoteLoop.eq_2, if_neg h, if_pos rfl]
+    exact ih.mono (List.suffix_cons _ _)
+  case case16 =>
+    intro d c e ch rest h hb ih; rw [quoteLoop.eq_2, if_neg h, if_neg hb]
+    exact ih.mono (List.suffix_cons _ _)
+
+
+/-! ### `endsWith` is `<:+` -/
+
+theorem endsWith_iff (l suf : Bytes) : endsWith l suf = true ↔ suf <:+ l := by
+  unfold endsWith
+  rw [beq_iff_eq, ← List.reverse_prefix, List.prefix_iff_eq_take, List.length_reverse]
+  exact eq_comm
+
+/-! ### Plain words -/
+
+/-- a byte the splitter copies without looking at it twice (apart from the `=<<` check) -/
+def PlainByte (b : Byte) : Prop := b ≠ sp ∧ b ≠ tab ∧ b ≠ nl ∧ b ≠ dq ∧ b ≠ bs
+
+instance (b : Byte) : Decidable (PlainByte b) := by unfold PlainByte; infer_instance
+
+/-- bytes that keep the splitter out of all its special branches: no blank, newline, quote or
+backslash, and the heredoc opener `=<<` does not occur -/
+def PlainBytes (w : Bytes) : Prop := (∀ b ∈ w, PlainByte b) ∧ ¬ [eq, lt, lt] <:+: w
+
+instance (w : Bytes) : Decidable (PlainBytes w) := by unfold PlainBytes; infer_instance
+
+/-- a non-empty run of plain bytes -/
+def PlainWord (w : Bytes) : Prop := w ≠ [] ∧ PlainBytes w
+
+instance (w : Bytes) : Decidable (PlainWord w) := by unfold PlainWord; infer_instance
+
+theorem open_unsep (done : List Bytes) (c : Option Bytes) (e : Bool) :
+    St.open ⟨done, c, e, false⟩ = ⟨done, c, e, false⟩ := by
+  simp [St.open]
+
+theorem open_sep' (done : List Bytes) (c : Option Bytes) (e : Bool) :
+    St.open ⟨done, c, e, true⟩ = ⟨St.args ⟨done, c, e, true⟩, some [], e, true⟩ := by
+  simp [St.open]
+
+/-- inside an argument, plain bytes are appended one by one -/
+theorem plain_run (done : List Bytes) (c w tail : Bytes) (hw : ∀ b ∈ w, PlainByte b)
+    (hi : ¬ [eq, lt, lt] <:+: c ++ w) :
+    mainLoop ⟨done, some c, false, false⟩ (w ++ tail)
+      = mainLoop ⟨done, some (c ++ w), false, false⟩ tail := by
+  induction w generalizing c with
+  | nil => simp
+  | cons b w ih =>
+    obtain ⟨h1, h2, h3, h4, h5⟩ := hw b (by simp)
+    rw [List.cons_append,
+      step_push (s := ⟨done, some c, false, false⟩) (c := c) h3 (by simp [h1, h2]) (by simp [h5])
+        (by rw [open_unsep]) (by simp [h4])]
+    · rw [open_unsep]
+      have := ih (c ++ [b]) (fun x hx => hw x (by simp [hx])) (by simpa using hi)
+      simpa using this
+    · rintro ⟨-, hb, he⟩
+      subst hb
+      obtain ⟨p, hp⟩ := (endsWith_iff _ _).1 he
+      apply hi
+      refine ⟨p, w, ?_⟩
+      rw [← hp]; simp
+
+/-- the first plain byte after a separator opens a new argument -/
+theorem plain_open (done : List Bytes) (cur : Option Bytes) (b : Byte) (rest : Bytes)
+    (hb : PlainByte b) :
+    mainLoop ⟨done, cur, false, true⟩ (b :: rest)
+      = mainLoop ⟨St.args ⟨done, cur, false, true⟩, some [b], false, false⟩ rest := by
+  obtain ⟨h1, h2, h3, h4, h5⟩ := hb
+  rw [step_push (s := ⟨done, cur, false, true⟩) (c := []) h3 (by simp [h1, h2]) (by simp [h5])
+        (by rw [open_sep']) (by simp [h4]) (by simp [endsWith])]
+  rw [open_sep']; rfl
+
+/-- a plain word after a separator becomes exactly one new argument -/
+theorem word_sep (done : List Bytes) (cur : Option Bytes) (w tail : Bytes) (hw : PlainWord w) :
+    mainLoop ⟨done, cur, false, true⟩ (w ++ tail)
+      = mainLoop ⟨St.args ⟨done, cur, false, true⟩, some w, false, false⟩ tail := by
+  obtain ⟨hne, hp, hi⟩ := hw
+  cases w with
+  | nil => exact absurd rfl hne
+  | cons b w =>
+    rw [List.cons_append, plain_open _ _ _ _ (hp b (by simp)),
+      plain_run _ [b] w tail (fun x hx => hp x (by simp [hx])) (by simpa using hi)]
+    rfl
+
+/-- reading blank-separated plain words from a separated state: the state reached has exactly
+the words appended to the arguments -/
+theorem words_aux (ws : List Bytes) (hws : ∀ w ∈ ws, PlainWord w) :
+    ∀ (done : List Bytes) (cur : Option Bytes) (tail : Bytes),
+    ∃ s' : St, s'.esc = false ∧ s'.args = St.args ⟨done, cur, false, true⟩ ++ ws ∧
+      mainLoop ⟨done, cur, false, true⟩ (List.intercalate [sp] ws ++ tail) = mainLoop s' tail := by
+  induction ws with
+  | nil => intro done cur tail; exact ⟨⟨done, cur, false, true⟩, rfl, by simp, by simp⟩
+  | cons a more ih =>
+    intro done cur tail
+    have ha := hws a (by simp)
+    cases more with
+    | nil =>
+      refine ⟨⟨St.args ⟨done, cur, false, true⟩, some a, false, false⟩, rfl, rfl, ?_⟩
+      rw [List.intercalate_singleton, word_sep _ _ _ _ ha]
+    | cons b more' =>
+      obtain ⟨s', h1, h2, h3⟩ := ih (fun w hw => hws w (by simp [hw]))
+        (St.args ⟨done, cur, false, true⟩) (some a) tail
+      refine ⟨s', h1, ?_, ?_⟩
+      · rw [h2]; simp [St.args]
+      · rw [List.intercalate_cons_cons, List.append_assoc, List.append_assoc, word_sep _ _ _ _ ha,
+          List.singleton_append, step_blank (by decide) (Or.inl rfl)]
+        exact h3
+
+theorem words_main (ws : List Bytes) (hws : ∀ w ∈ ws, PlainWord w) (rest : Bytes) :
+    readArgs (List.intercalate [sp] ws ++ nl :: rest) = .ok ws false rest := by
+  obtain ⟨s', h1, h2, h3⟩ := words_aux ws hws [] none (nl :: rest)
+  rw [readArgs, h3, step_nl (by simp [h1]), h2]; rfl
+
+theorem words_eof_main (ws : List Bytes) (hws : ∀ w ∈ ws, PlainWord w) :
+    readArgs (List.intercalate [sp] ws) = .ok ws true [] := by
+  obtain ⟨s', h1, h2, h3⟩ := words_aux ws hws [] none []
+  rw [List.append_nil] at h3
+  rw [readArgs, h3, mainLoop.eq_1, h2]; rfl
+
+
+/-! ### Quoted arguments -/
+
+/-- reference quoting of one byte inside an open quote -/
+def escByte (b : Byte) : Bytes :=
+  if b = dq then [bs, dq]
+  else if b = bs then [dq, bs, bs, dq]      -- close the quote, emit `\\` outside, reopen
+  else [b]
+
+def renderBody (a : Bytes) : Bytes := a.flatMap escByte
+
+/-- `"` body `"` -/
+def render (a : Bytes) : Bytes := dq :: renderBody a ++ [dq]
+
+/-- all arguments: `render a₁ ␠ render a₂ ␠ …` -/
+def renderLine : List Bytes → Bytes
+  | [] => []
+  | [a] => render a
+  | a :: b :: more => render a ++ sp :: renderLine (b :: more)
+
+theorem quote_dq (done : List Bytes) (c rest : Bytes) :
+    quoteLoop done c false (dq :: rest) = mainLoop ⟨done, some c, false, false⟩ rest := by
+  rw [quoteLoop.eq_2, if_pos ⟨by simp, rfl⟩]
+
+theorem quote_bs (done : List Bytes) (c : Bytes) (e : Bool) (rest : Bytes) :
+    quoteLoop done c e (bs :: rest) = quoteLoop done c true rest := by
+  rw [quoteLoop.eq_2, if_neg (by simp; intro; decide), if_pos rfl]
+
+theorem quote_esc (done : List Bytes) (c : Bytes) (ch : Byte) (rest : Bytes) (h : ch ≠ bs) :
+    quoteLoop done c true (ch :: rest) = quoteLoop done (c ++ [ch]) false rest := by
+  rw [quoteLoop.eq_2, if_neg (by simp), if_neg h]
+
+theorem quote_other (done : List Bytes) (c : Bytes) (ch : Byte) (rest : Bytes)
+    (h1 : ch ≠ dq) (h2 : ch ≠ bs) :
+    quoteLoop done c false (ch :: rest) = quoteLoop done (c ++ [ch]) false rest := by
+  rw [quoteLoop.eq_2, if_neg (by simp [h1]), if_neg h2]
+
+/-- `\\"` read inside an argument (outside quotes) appends a backslash and reopens the quote -/
+theorem bsbsdq (done : List Bytes) (c rest : Bytes) :
+    mainLoop ⟨done, some c, false, false⟩ (bs :: bs :: dq :: rest)
+      = quoteLoop done (c ++ [bs]) false rest := by
+  rw [step_bs (by decide) (by decide) ⟨by simp, rfl⟩]
+  rw [step_push (c := c) (by decide) (by decide) (by simp) (by rw [open_unsep])
+        (by rw [open_unsep]; simp) (by rw [open_unsep]; simp)]
+  rw [open_unsep]
+  rw [step_dq (c := c ++ [bs]) (by decide) (by decide) (by simp; decide) (by rw [open_unsep])
+        (by rw [open_unsep]; simp)]
+  rw [open_unsep]
+
+/-- inside a quote: consuming the rendered body and the closing quote appends exactly `a` -/
+theorem quote_body (done : List Bytes) (c a tail : Bytes) :
+    quoteLoop done c false (renderBody a ++ dq :: tail)
+      = mainLoop ⟨done, some (c ++ a), false, false⟩ tail := by
+  induction a generalizing c with
+  | nil => simp [renderBody, quote_dq]
+  | cons b a ih =>
+    have hcons : renderBody (b :: a) = escByte b ++ renderBody a := by simp [renderBody]
+    have hc : c ++ b :: a = c ++ [b] ++ a := by simp
+    rw [hcons, hc, ← ih (c ++ [b])]
+    by_cases hq : b = dq
+    · subst hq
+      have : escByte dq = [bs, dq] := by decide
+      rw [this]
+      simp only [List.cons_append, List.nil_append]
+      rw [quote_bs, quote_esc _ _ _ _ (by decide)]
+    · by_cases hb : b = bs
+      · subst hb
+        have : escByte bs = [dq, bs, bs, dq] := by decide
+        rw [this]
+        simp only [List.cons_append, List.nil_append]
+        rw [quote_dq, bsbsdq]
+      · have : escByte b = [b] := by simp [escByte, hq, hb]
+        rw [this]
+        simp only [List.cons_append, List.nil_append]
+        rw [quote_other _ _ _ _ hq hb]
+
+/-- one rendered argument, read from a separated state, becomes exactly one new argument -/
+theorem one_arg (done : List Bytes) (cur : Option Bytes) (a tail : Bytes) :
+    mainLoop ⟨done, cur, false, true⟩ (render a ++ tail)
+      = mainLoop ⟨St.args ⟨done, cur, false, true⟩, some a, false, false⟩ tail := by
+  simp only [render, List.cons_append, List.append_assoc]
+  rw [step_dq (c := []) (by decide) (by decide) (by simp; decide) (by rw [open_sep'])
+        (by rw [open_sep']; simp)]
+  rw [open_sep', quote_body]
+  simp
+
+theorem quoted_aux (done : List Bytes) (cur : Option Bytes) (args : List Bytes) (rest : Bytes) :
+    mainLoop ⟨done, cur, false, true⟩ (renderLine args ++ nl :: rest)
+      = .ok (St.args ⟨done, cur, false, true⟩ ++ args) false rest := by
+  induction args generalizing done cur with
+  | nil => simp [renderLine, step_nl]
+  | cons a more ih =>
+    cases more with
+    | nil =>
+      simp only [renderLine]
+      rw [one_arg, step_nl (by simp)]; rfl
+    | cons b more' =>
+      simp only [renderLine, List.append_assoc, List.cons_append]
+      rw [one_arg, step_blank (by decide) (Or.inl rfl), ih]
+      simp [St.args]
+
+theorem quoted_main (args : List Bytes) (rest : Bytes) :
+    readArgs (renderLine args ++ nl :: rest) = .ok args false rest := by
+  have := quoted_aux [] none args rest
+  simpa [readArgs, St.args] using this
+
+/-! ### Line continuation -/
+
+theorem continuation_main (s : St) (rest : Bytes) (h : s.esc = false) :
+    mainLoop s (bs :: nl :: rest) = mainLoop s rest := by
+  rw [step_bs (by decide) (by decide) ⟨by simp [h], rfl⟩, step_nl_esc rfl]
+  cases s; simp_all
+
 end Goat.Args
